@@ -4,8 +4,13 @@ import (
 	"bytes"
 	"context"
 	"crypto"
+	"crypto/dsa"
+	"crypto/ecdsa"
+	"crypto/elliptic"
+	crand "crypto/rand"
 	"crypto/rsa"
 	"encoding/binary"
+	"encoding/json"
 	"errors"
 	"fmt"
 	"io"
@@ -15,6 +20,7 @@ import (
 	"os/exec"
 	"path/filepath"
 	"runtime/debug"
+	"strconv"
 	"strings"
 	"sync"
 	"time"
@@ -122,11 +128,129 @@ type keyInfo struct {
 	ent     *openpgp.Entity
 	encrypt bool // has an encryption-capable (sub)key this package can encrypt to
 	sign    bool
-	algo    string // "rsa", "dsa", "ecdsa"
+	algo    string // algorithm of the primary key: "rsa", "dsa", "ecdsa"
 	qBytes  int    // DSA subgroup size
 	fromGo  bool
 	armored []byte // private key block for gpg --import
 	pubArm  []byte
+
+	// Entity shape (which keys exist and which of them are usable), taken from
+	// GnuPG's own listing of the key (testdata/keys/shapes.json) or, for the
+	// entities the harness builds through the package API, from construction.
+	shape        string   // class label for the evidence
+	primarySigns bool     // the primary key carries the "sign data" flag
+	signIDs      []uint64 // ids a message signature may come from: the valid signing subkeys, else the primary
+	encID        uint64   // id a message must be encrypted to: newest valid encryption subkey, else the primary
+	badIDs       []uint64 // expired / revoked subkeys: must never be used
+	signAlgo     string   // algorithm of the keys in signIDs
+	signMinHash  int      // GnuPG's minimum digest length for those keys (DSA/ECDSA group size)
+	primMinHash  int      // the same for the primary key (DetachSign always signs with the primary)
+	noGPGSign    bool     // GnuPG will not accept message signatures of this entity (no cross-certification)
+	base         bool     // one of the original seven keys (the only ones C45 builds on)
+}
+
+// signPriv returns the private key of the model's signing key (clearsign.Encode takes a key, not an entity).
+func (k *keyInfo) signPriv() *packet.PrivateKey {
+	for _, id := range k.signIDs {
+		if k.ent.PrimaryKey.KeyId == id {
+			return k.ent.PrivateKey
+		}
+		for _, sk := range k.ent.Subkeys {
+			if sk.PublicKey.KeyId == id {
+				return sk.PrivateKey
+			}
+		}
+	}
+	return k.ent.PrivateKey
+}
+
+func hasID(ids []uint64, id uint64) bool {
+	for _, x := range ids {
+		if x == id {
+			return true
+		}
+	}
+	return false
+}
+
+func algoName(a packet.PublicKeyAlgorithm) string {
+	switch a {
+	case packet.PubKeyAlgoDSA:
+		return "dsa"
+	case packet.PubKeyAlgoECDSA:
+		return "ecdsa"
+	}
+	return "rsa"
+}
+
+// gpgMinHash: GnuPG wants a digest at least as long as the DSA subgroup /
+// ECDSA curve order (512 bits suffice for P-521).
+func gpgMinHash(pk *packet.PublicKey) int {
+	switch pub := pk.PublicKey.(type) {
+	case *dsa.PublicKey:
+		return (pub.Q.BitLen() + 7) / 8
+	case *ecdsa.PublicKey:
+		if n := pub.Params().BitSize; n > 512 {
+			return 64
+		} else {
+			return (n + 7) / 8
+		}
+	}
+	return 0
+}
+
+type shapeEntry struct {
+	Primary      string   `json:"primary"`
+	PrimarySigns bool     `json:"primary_signs"`
+	ValidSign    []string `json:"valid_signing_subkeys"`
+	InvalidSign  []string `json:"invalid_signing_subkeys"`
+	ValidEnc     []string `json:"valid_encryption_subkeys"`
+	InvalidEnc   []string `json:"invalid_encryption_subkeys"`
+	NewestEnc    string   `json:"newest_valid_encryption_subkey"`
+}
+
+func hexID(s string) uint64 {
+	v, _ := strconv.ParseUint(s, 16, 64)
+	return v
+}
+
+// applyShape fills the model fields of k from GnuPG's view of the key.
+func (k *keyInfo) applyShape(se shapeEntry) error {
+	if hexID(se.Primary) != k.ent.PrimaryKey.KeyId {
+		return fmt.Errorf("shape table does not belong to key %s", k.name)
+	}
+	k.primarySigns = se.PrimarySigns
+	for _, s := range se.ValidSign {
+		k.signIDs = append(k.signIDs, hexID(s))
+	}
+	if len(k.signIDs) == 0 {
+		k.signIDs = []uint64{k.ent.PrimaryKey.KeyId}
+	}
+	for _, s := range append(append([]string{}, se.InvalidSign...), se.InvalidEnc...) {
+		k.badIDs = append(k.badIDs, hexID(s))
+	}
+	k.encID = hexID(se.NewestEnc)
+	k.encrypt = se.NewestEnc != ""
+	k.primMinHash = gpgMinHash(k.ent.PrimaryKey)
+	k.algo = algoName(k.ent.PrimaryKey.PubKeyAlgo)
+	sp := k.signPriv()
+	k.signAlgo = algoName(sp.PubKeyAlgo)
+	k.signMinHash = gpgMinHash(&sp.PublicKey)
+	switch {
+	case len(se.InvalidSign)+len(se.InvalidEnc) > 0:
+		k.shape = "shape=valid subkeys next to expired/revoked ones"
+	case !se.PrimarySigns:
+		k.shape = "shape=primary [C] + signing subkey + encryption subkey"
+	case len(se.ValidSign) > 0:
+		k.shape = "shape=primary [SC] + signing subkey (+ encryption subkey)"
+	case len(se.ValidEnc) > 1:
+		k.shape = "shape=primary [SC] + several encryption subkeys"
+	case len(se.ValidEnc) == 1:
+		k.shape = "shape=primary [SC] + encryption subkey"
+	default:
+		k.shape = "shape=primary [SC] only"
+	}
+	return nil
 }
 
 type keyPool struct {
@@ -167,10 +291,16 @@ func loadPool() (*keyPool, error) {
 			p.byName[k.name] = k
 			p.ring = append(p.ring, k.ent)
 		}
+		var shapes map[string]shapeEntry
+		if data, err := os.ReadFile(filepath.Join(td, "keys", "shapes.json")); err != nil || json.Unmarshal(data, &shapes) != nil {
+			poolErr = fmt.Errorf("testdata/keys/shapes.json unreadable: %v", err)
+			return
+		}
 		for _, spec := range []struct {
 			name, algo string
 			enc        bool
-		}{{"rsa", "rsa", true}, {"dsa", "dsa", true}, {"ecs", "ecdsa", false}, {"ec384", "ecdsa", false}, {"ec521", "ecdsa", false}} {
+		}{{"rsa", "rsa", true}, {"dsa", "dsa", true}, {"ecs", "ecdsa", false}, {"ec384", "ecdsa", false}, {"ec521", "ecdsa", false},
+			{"rsacse", "", true}, {"rsascs", "", true}, {"multie", "", true}, {"expsub", "", true}, {"ecmix", "", true}, {"dsacse", "", true}, {"revsub", "", true}} {
 			sec, err := os.ReadFile(filepath.Join(td, "keys", spec.name+".sec.asc"))
 			if err != nil {
 				poolErr = err
@@ -190,6 +320,11 @@ func loadPool() (*keyPool, error) {
 			if spec.algo == "dsa" {
 				k.qBytes = 32 // gpg's dsa2048 uses a 256-bit subgroup
 			}
+			if err := k.applyShape(shapes[spec.name]); err != nil {
+				poolErr = err
+				return
+			}
+			k.base = spec.algo != ""
 			add(k)
 		}
 		var err error
@@ -237,9 +372,58 @@ func loadPool() (*keyPool, error) {
 				poolErr = err
 				return
 			}
-			add(&keyInfo{name: name, ent: e, encrypt: true, sign: true, algo: "rsa", fromGo: true, armored: sec.Bytes(), pubArm: pub.Bytes()})
+			k := &keyInfo{name: name, ent: e, encrypt: true, sign: true, algo: "rsa", fromGo: true, base: true, armored: sec.Bytes(), pubArm: pub.Bytes(),
+				shape: "shape=primary [SC] + encryption subkey", primarySigns: true, signIDs: []uint64{e.PrimaryKey.KeyId}, encID: e.Subkeys[0].PublicKey.KeyId, signAlgo: "rsa"}
+			add(k)
+		}
+		// an entity assembled through the package API: NewEntity plus an ECDSA signing subkey
+		// bound with Signature.SignKey (no embedded cross-certification: GnuPG would not
+		// accept its data signatures, so it only takes part in the Go <-> Go legs)
+		{
+			cfg := &packet.Config{Time: func() time.Time { return keyTime }, RSABits: 2048}
+			e, err := openpgp.NewEntity("Go gosub", "", "gosub@example.org", cfg)
+			if err != nil {
+				poolErr = fmt.Errorf("NewEntity: %v", err)
+				return
+			}
+			ek, err := ecdsa.GenerateKey(elliptic.P256(), crand.Reader)
+			if err != nil {
+				poolErr = err
+				return
+			}
+			sub := openpgp.Subkey{PublicKey: packet.NewECDSAPublicKey(keyTime, &ek.PublicKey), PrivateKey: packet.NewECDSAPrivateKey(keyTime, ek),
+				Sig: &packet.Signature{CreationTime: keyTime, SigType: packet.SigTypeSubkeyBinding, PubKeyAlgo: packet.PubKeyAlgoRSA, Hash: crypto.SHA256,
+					FlagsValid: true, FlagSign: true, IssuerKeyId: &e.PrimaryKey.KeyId}}
+			sub.PublicKey.IsSubkey, sub.PrivateKey.IsSubkey = true, true
+			if err := sub.Sig.SignKey(sub.PublicKey, e.PrivateKey, cfg); err != nil {
+				poolErr = err
+				return
+			}
+			e.Subkeys = append(e.Subkeys, sub)
+			var sec, pub bytes.Buffer
+			if err := armorTo(&sec, openpgp.PrivateKeyType, func(w io.Writer) error { return e.SerializePrivate(w, cfg) }); err != nil {
+				poolErr = err
+				return
+			}
+			if err := armorTo(&pub, openpgp.PublicKeyType, func(w io.Writer) error { return e.Serialize(w) }); err != nil {
+				poolErr = err
+				return
+			}
+			add(&keyInfo{name: "gosub", ent: e, encrypt: true, sign: true, algo: "rsa", fromGo: true, noGPGSign: true, armored: sec.Bytes(), pubArm: pub.Bytes(),
+				shape: "shape=primary [SC] + signing subkey (+ encryption subkey)", primarySigns: true, signIDs: []uint64{sub.PublicKey.KeyId},
+				encID: e.Subkeys[0].PublicKey.KeyId, signAlgo: "ecdsa", signMinHash: 32})
 		}
 		for _, k := range p.keys {
+			if k.noGPGSign {
+				// the package cannot write the embedded cross-certification its own reader
+				// demands of signing subkeys: the public view of this entity is assembled directly
+				pe := &openpgp.Entity{PrimaryKey: k.ent.PrimaryKey, Identities: k.ent.Identities}
+				for _, sk := range k.ent.Subkeys {
+					pe.Subkeys = append(pe.Subkeys, openpgp.Subkey{PublicKey: sk.PublicKey, Sig: sk.Sig})
+				}
+				p.pubRing = append(p.pubRing, pe)
+				continue
+			}
 			el, err := openpgp.ReadArmoredKeyRing(bytes.NewReader(k.pubArm))
 			if err != nil || len(el) != 1 {
 				poolErr = fmt.Errorf("public key of %s unreadable: %v", k.name, err)
@@ -264,6 +448,27 @@ func loadPool() (*keyPool, error) {
 }
 
 func (p *keyPool) signers() []*keyInfo { return p.keys }
+
+// baseKeys are the seven original keys (five made by gpg, two by NewEntity); C45 builds on these only.
+func (p *keyPool) baseKeys() []*keyInfo {
+	var out []*keyInfo
+	for _, k := range p.keys {
+		if k.base {
+			out = append(out, k)
+		}
+	}
+	return out
+}
+
+func (p *keyPool) baseRecipients() []*keyInfo {
+	var out []*keyInfo
+	for _, k := range p.baseKeys() {
+		if k.encrypt {
+			out = append(out, k)
+		}
+	}
+	return out
+}
 func (p *keyPool) recipients() []*keyInfo {
 	var out []*keyInfo
 	for _, k := range p.keys {
@@ -318,11 +523,18 @@ func newGPG(p *keyPool, budget int) *gpgEnv {
 		g.why = err.Error()
 		return g
 	}
+	// one import for all keys (each block on its own lines)
+	var all []byte
 	for _, k := range p.keys {
-		if _, se, rc, err := g.run(k.armored, "--import"); err != nil || rc != 0 {
-			g.why = fmt.Sprintf("gpg --import %s failed: rc=%d %v %s", k.name, rc, err, tail(se))
-			return g
+		if k.noGPGSign {
+			continue // never handed to gpg
 		}
+		all = append(all, bytes.TrimRight(k.armored, "\n")...)
+		all = append(all, '\n')
+	}
+	if _, se, rc, err := g.run(all, "--import"); err != nil || rc != 0 {
+		g.why = fmt.Sprintf("gpg --import failed: rc=%d %v %s", rc, err, tail(se))
+		return g
 	}
 	// control: gpg signs+encrypts to its own key and reads it back
 	msg := []byte("control message\n")
